@@ -176,6 +176,17 @@ def mpas(m, padding="zeros", optional="all", coords="both", dual=False, dtype="i
             fe = [[idx[frozenset((f[j], f[(j + 1) % len(f)]))] for j in range(len(f))] for f in m.faces]
             ds["edgesOnCell"] = (("nCells", "maxEdges"), pad(fe, W, padding, len(keys)))
             ds["cellsOnEdge"] = (("nEdges", "TWO"), pad([[fi for fi, _ in E[k]] for k in keys], 2, "zeros", 1))
+            # cellsOnCell[i][j] = the cell across edge j of cell i (0 = no neighbour across that edge); entries beyond nEdgesOnCell are
+            # undefined by the MPAS spec and follow the padding style
+            coc = np.zeros((len(m.faces), W), dtype=np.int32)
+            for fi, f in enumerate(m.faces):
+                nb = [([x for x, _ in E[frozenset((f[j], f[(j + 1) % len(f)]))] if x != fi] + [-1])[0] + 1 for j in range(len(f))]
+                coc[fi, : len(f)] = nb
+                if padding == "repeat-last":
+                    coc[fi, len(f):] = nb[-1] if nb[-1] > 0 else (max(nb) if max(nb) > 0 else 0)
+                elif padding == "junk":
+                    coc[fi, len(f):] = [(5 * fi + 2 * j) % len(m.faces) + 1 for j in range(W - len(f))]
+            ds["cellsOnCell"] = (("nCells", "maxEdges"), coc)
             ds["dvEdge"] = (("nEdges",), np.array([float(sph.angle(P[sorted(k)[0]], P[sorted(k)[1]])) for k in keys]) * 6371229.0)
             ds["dcEdge"] = (("nEdges",), np.array([float(sph.angle(FC[E[k][0][0]], FC[E[k][1][0]])) if len(E[k]) == 2 else 0.0 for k in keys]) * 6371229.0)
             ds["areaCell"] = (("nCells",), np.array([sph.poly_area(P[list(f)]) for f in m.faces]))
